@@ -331,6 +331,17 @@ class Z3Dom:
             return lower(a / c)
         return lower(z3.ToInt(e))
 
+    def round_half_even(self, v):
+        """Python 3 round(v) with one argument: the nearest integer, ties to the even neighbour"""
+        e = zconst(v)
+        if e.is_int():
+            return v
+        f = z3.ToInt(e)                                   # floor
+        d = e - z3.ToReal(f)
+        half = z3.RealVal("1/2")
+        r = z3.If(d < half, f, z3.If(d > half, f + 1, z3.If(f % 2 == 0, f, f + 1)))
+        return lower(r)
+
     def floordiv(self, a, b):
         ea, eb = zconst(a), zconst(b)
         if ea.is_int() and eb.is_int():
@@ -717,6 +728,14 @@ class Z3Dom:
             zero = Cx(Fraction(0), Fraction(0)) if isinstance(v, Cx) else Fraction(0)
             return V.s_ite(V.b_and(V.s_cmp(">=", j, lo), V.s_cmp("<", j, hi)), v, zero)
         return self.seq_functional("total", masked, meta={"lo": zconst(lo), "hi": zconst(hi)})
+
+    def forall_index(self, n, body):
+        """for all k in [0, n): body(k)   (a quantified Boolean term; used for whole-array comparisons)"""
+        self._fa = getattr(self, "_fa", 0) + 1
+        k = z3.Int("fa!k%d" % self._fa)
+        from .oblig import to_formula
+        b = to_formula(body(R(k)))
+        return B(z3.ForAll([k], z3.Implies(z3.And(k >= 0, k < zconst(n)), b)))
 
     def dtft(self, seq_fn, length, num, den):
         """DTFT(s, f) = sum_j s[j] exp(-2 pi i f j) of the zero-extended sequence at f = num/den
